@@ -55,7 +55,7 @@ Init ==
   /\ hist = IF Export = "hist" THEN << [call |-> [op |-> "init"], post |-> Homs(xs)] >> ELSE <<>>
 
 Kinds == {"mulr", "mull", "divr", "extend", "inv", "prod", "reverse", "slicerev", "pow", "append", "insert", "setitem",
-          "pop", "getitem", "slice"}
+          "pop", "getitem", "slice", "peek-inv", "peek-prod", "peek-divl"}
 Choose(k) == cls = "none" /\ dep < MaxDepth /\ cls' = k /\ UNCHANGED <<xs, dep, last, hist>>
 
 \* a chosen kind may have no enabled call in the current state (e.g. inv of an empty object): the choice is withdrawn
@@ -96,6 +96,13 @@ InvAll   == Len(xs) >= 1 /\ Step([op |-> "inv"], Map(Inv, xs))
 PowAll(n) == Len(xs) >= 1 /\ Step([op |-> "pow", n |-> n], [i \in 1..Len(xs) |-> Canon(Pow(xs[i], n))])
 ProdAll  == Len(xs) >= 1 /\ Step([op |-> "prod"], << Canon(ProdSeq(xs)) >>)
 
+\* ---- observations: a non-mutating call whose RESULT is looked at while the live object stays what it is ----------
+\* (x.inv(), x.prod(), g / x evaluated and discarded: the next one must reflect the values the object holds THEN,
+\* whatever was computed from it before)
+PeekInv     == Len(xs) >= 1 /\ Step([op |-> "peek-inv", val |-> Homs(Map(Inv, xs))], xs)
+PeekProd    == Len(xs) >= 1 /\ Step([op |-> "peek-prod", val |-> Homs(<< Canon(ProdSeq(xs)) >>)], xs)
+PeekDivL(g) == Len(xs) >= 1 /\ Step([op |-> "peek-divl", g |-> Hom(g), val |-> Homs(Bin(Div, << g >>, xs))], xs)
+
 \* ---- list layer (indices as Python writes them: 0-based, negative from the end) ---------------------
 PyIdx(i, n) == IF i < 0 THEN i + n + 1 ELSE i + 1         \* 1-based position of Python index i, if in range
 InRange(i, n) == -n <= i /\ i < n
@@ -128,7 +135,8 @@ Next ==
   \/ \E k \in Kinds : Choose(k)
   \/ Unchoose
   \/ \E ys \in Operands : MulR(ys) \/ MulL(ys) \/ DivR(ys) \/ ExtendS(ys)
-  \/ InvAll \/ ProdAll \/ ReverseS \/ SliceRev
+  \/ InvAll \/ ProdAll \/ ReverseS \/ SliceRev \/ PeekInv \/ PeekProd
+  \/ \E g \in Leaves : PeekDivL(L(g))
   \/ \E n \in Exps : PowAll(n)
   \/ \E g \in Leaves : AppendE(L(g))
   \/ \E g \in Leaves : \E i \in Idx : InsertE(i, L(g)) \/ SetE(i, L(g))
